@@ -221,8 +221,9 @@ func TestVerifC19Child(t *testing.T) {
 	l3stride, l3rand, l5rand := geti("VERIF_C19_L3STRIDE", 5), geti("VERIF_C19_L3RAND", 500), geti("VERIF_C19_RAND", 2000)
 	tagStride, walks := geti("VERIF_C19_TAGSTRIDE", 3), geti("VERIF_C19_WALKS", 30)
 
-	logs.Init(io.Discard, "")
+	logs.Info = log.New(io.Discard, "", 0)
 	logs.Warn = log.New(io.Discard, "", 0)
+	logs.Err = log.New(io.Discard, "", 0)
 
 	// the REAL basic authenticator, initialised the way main() does (main.go:450)
 	conf := `{"add_to_tags": false}`
@@ -352,7 +353,21 @@ func TestVerifC19Child(t *testing.T) {
 		for j := range rs {
 			rs[j] = uni[rng.Intn(len(uni))]
 		}
-		emitParse("L5", string(rs), []verifC19Cfg{cfgAll[rng.Intn(8)], cfgAll[rng.Intn(8)]})
+		c1, c2 := cfgAll[rng.Intn(8)], cfgAll[rng.Intn(8)]
+		// libphonenumber reads long letter/digit runs as vanity numbers (111a1aa11a1aa = +1 212 211 2122); the model
+		// tabulates phone numbers, so the phone validator is only switched on when no run can be one
+		run, longest := 0, 0
+		for _, r := range rs {
+			if r == ' ' || r == '\t' || r == ',' {
+				run = 0
+			} else if run++; run > longest {
+				longest = run
+			}
+		}
+		if longest >= 9 {
+			c1.Tel, c2.Tel = false, false
+		}
+		emitParse("L5", string(rs), []verifC19Cfg{c1, c2})
 	}
 
 	// ---- handler level: the fnd branch of the real Topic.replyGetSub
